@@ -297,7 +297,7 @@ func (g *gen) cond(depth int) cond {
 }
 
 func (g *gen) query() *qSpec {
-	q := &qSpec{Prefix: g.prefix()}
+	q := &qSpec{Prefix: g.prefix(), Consume: vlib.Pick(g.r, "", "", "prompt", "slow")}
 	if g.r.Chance(3, 5) {
 		c := g.cond(3)
 		q.Where = &c
@@ -468,5 +468,76 @@ func genBigHistory(seed uint64, cfg cfgSpec, n int) history {
 		op{K: "maintain_states"}, op{K: "maintain"}, op{K: "maintain_thorough"},
 		op{K: "purge", Q: &qSpec{Prefix: "q/", Where: &cond{Op: "==", Field: "N", VI: func() *int64 { v := int64(zero); return &v }()}}},
 		op{K: "readback"}, op{K: "maintain_states"})
+	return h
+}
+
+// genWideHistory is a history over 150-400 keys with records of similar size, so that
+// a single query iteration passes far more records than any backend-internal read-ahead
+// or buffer window holds (badger prefetches 100 items, the iterator channel buffers 10).
+// Every delivered record is compared with the model in full; the consumer looks at the
+// records after the stream has ended (buffer), with pauses (slow) and on receipt (prompt).
+func genWideHistory(seed uint64, cfg cfgSpec, no int) history {
+	r := vlib.NewRand(seed, "C02/wide/"+cfg.label(), uint64(no))
+	n := r.Range(150, 400)
+	h := history{No: no}
+	key := func(i int) string {
+		if i%10 < 7 {
+			return fmt.Sprintf("w/%04d", i)
+		}
+		return fmt.Sprintf("v/%04d", i)
+	}
+	mkRec := func(i, version int) recSpec {
+		s, t := fmt.Sprintf("name-of-%04d-v%d", i, version), "wide"
+		iv, nv, f, b := int64(i), int32(i%7), float64(i)/4, i%3 == 0
+		form := "struct"
+		if i%4 == 1 {
+			form = "json"
+		}
+		return recSpec{Key: key(i), Form: form, C: content{S: &s, T: &t, I: &iv, N: &nv, F: &f, B: &b}, Meta: "fresh"}
+	}
+	for i := 0; i < n; i++ {
+		h.Keys = append(h.Keys, key(i))
+	}
+	// store: in one batch where the backend has batches (and the coin says so), else one by one
+	if cfg.batcher() && r.Bool() {
+		b := op{K: "putmany"}
+		for i := 0; i < n; i++ {
+			b.Batch = append(b.Batch, mkRec(i, 0))
+		}
+		h.Ops = append(h.Ops, b)
+	} else {
+		for i := 0; i < n; i++ {
+			rs := mkRec(i, 0)
+			h.Ops = append(h.Ops, op{K: "put", Key: rs.Key, Rec: &rs})
+		}
+	}
+	half := int64(n / 2)
+	three := int64(3)
+	queries := func() {
+		modes := []string{"", "slow", "prompt"}
+		vlib.Shuffle(r, modes)
+		h.Ops = append(h.Ops,
+			op{K: "query", Q: &qSpec{Prefix: "", Consume: ""}},
+			op{K: "query", Q: &qSpec{Prefix: "w/", Consume: modes[0]}},
+			op{K: "query", Q: &qSpec{Prefix: "", Consume: modes[1]}},
+			op{K: "query", Q: &qSpec{Prefix: "", Where: &cond{Op: ">=", Field: "I", VI: &half}, Consume: modes[2]}},
+			op{K: "query", Q: &qSpec{Prefix: "v/", Where: &cond{Op: "not", Kids: []cond{{Op: "==", Field: "N", VI: &three}}}, Consume: ""}},
+			op{K: "query", Q: &qSpec{Prefix: "w/0", Where: &cond{Op: "startswith", Field: "S", VS: func() *string { v := "name-of-0"; return &v }()}, Consume: "slow"}})
+	}
+	queries()
+	// change, delete and expire a share of the records
+	for j := 0; j < n/8; j++ {
+		rs := mkRec(r.Intn(n), 1+j%3)
+		rs.Meta = "keep"
+		h.Ops = append(h.Ops, op{K: "put", Key: rs.Key, Rec: &rs})
+	}
+	for j := 0; j < n/10; j++ {
+		h.Ops = append(h.Ops, op{K: "delete", Key: key(r.Intn(n))})
+	}
+	for j := 0; j < n/20; j++ {
+		h.Ops = append(h.Ops, op{K: "setabs", Key: key(r.Intn(n)), Off: vlib.Pick(r, int64(-100000), 100000)})
+	}
+	queries()
+	h.Ops = append(h.Ops, op{K: "maintain_states"}, op{K: "query", Q: &qSpec{Prefix: "", Consume: ""}})
 	return h
 }
